@@ -368,6 +368,15 @@ impl Check for Traced {
             st.maxi("lua:call_depth", c.max_depth as u64);
         }
         if let Some(c) = &ob.census {
+            if self.prop == "C10" && !c.free_v_written_in_functions.is_empty() && !matches!(ob.verdict, Verdict::Violation { .. }) {
+                // a temporary assigned inside a function body that is not declared local is shared by all activations
+                st.violation(Violation {
+                    signature: "census:global-temporary-written-in-function".into(),
+                    hazard: None,
+                    case: index,
+                    detail: J::obj().with("names", J::Arr(c.free_v_written_in_functions.iter().take(8).map(|n| J::s(n.clone())).collect())).with("source", J::s(text.clone())),
+                });
+            }
             st.add("census:free_V_names_written_inside_functions", c.free_v_written_in_functions.len() as u64);
             st.maxi("census:locals_in_one_function", c.max_locals_in_function as u64);
         }
